@@ -36,7 +36,7 @@ open Q1t Q1t.OpenQasm Q1t.Spec.OQ2
 /-- names of what is not proved (see the header) -/
 def unproved : List String :=
   ["export_wellformed_partial", "export_equiv_partial", "template:CRX", "template:CRY", "template:CRZ",
-   "template:CU1", "template:CT", "template:CTdg", "template:CCRX", "template:CCRY", "template:CCRZ"]
+   "template:CU1", "template:CU3", "template:CT", "template:CTdg", "template:CCRX", "template:CCRY", "template:CCRZ"]
 
 variable {P : Type}
 
@@ -168,12 +168,6 @@ theorem neg_empty_control_list : exactAgree ⟨1, 1, [.cond [] 1 gX [0]]⟩ = so
 theorem neg_condition_target_overflow : exactAgree ⟨1, 1, [.cond [0] 2 gX [0]]⟩ = some false :=
   wit_target_overflow
 
-/-- `CU3(0, π/2, 0)` is not the published `cu3(0, pi/2, 0)` up to a global phase -/
-theorem neg_cu3_relative_phase :
-    (libMeaning (α := Q8) (P := QPi) libTable "CU3" [.direct (ang 0), .direct (ang (1/2)), .direct (ang 0)]).map
-      (fun M => phaseEq8 M (Spec.specMatrix (.C (.U3 (ang 0) (ang (1/2)) (ang 0)) : GateTerm QPi))) = some false :=
-  wit_cu3_phase
-
 /-- an empty composite becomes an empty statement, which is not a statement of the language -/
 theorem neg_empty_statement :
     exportCircuit libTable (⟨1, 0, [.gate (.composite "e" 1 .nil) [0]]⟩ : QCircuit Nat) =
@@ -212,10 +206,19 @@ theorem pos_bell_agrees :
     exactAgree ⟨2, 2, [.gate gH [0], .gate (.lib "CX" []) [0, 1], .measureAll [0, 1] .Z,
       .cond [1, 0] 3 (.kron gX gH) [1, 0], .reset 0, .barrier [0, 1]]⟩ = some true := wit_agree_bell
 
-/-- `CU3` with `φ + λ = 0` is the published `cu3` -/
-theorem pos_cu3_without_phase :
-    (libMeaning (α := Q8) (P := QPi) libTable "CU3" [.direct (ang 0), .direct (ang (1/2)), .direct (ang (-1/2))]).map
-      (fun M => phaseEq8 M (Spec.specMatrix (.C (.U3 (ang 0) (ang (1/2)) (ang (-1/2))) : GateTerm QPi))) = some true :=
+/-- `CU3(0, π/2, 0)` is exported as `cu3(0, pi/2, 0)`: exactly the controlled `U3` under the corrected body of
+`qelib1.inc` (the reading of `Spec/OQ2.lean`) -/
+theorem pos_cu3_exact :
+    (libMeaning (α := Q8) (P := QPi) libTable "CU3" [.direct (ang 0), .direct (ang (1/2)), .direct (ang 0)]).map
+      (fun M => phaseEq8 M (Spec.specMatrix (.C (.U3 (ang 0) (ang (1/2)) (ang 0)) : GateTerm QPi))) = some true :=
   wit_cu3_ok
+
+/-- REMARK about the historical library file — not a witness of a defect of the exporter: the body of `cu3` as
+first printed with the OpenQASM 2.0 specification (`originalCu3Body`, without `u1((lambda+phi)/2) c;`) is not the
+controlled `U3(0, π/2, 0)` up to a global phase. -/
+theorem remark_original_cu3_body :
+    (seqMatrix (α := Q8) (P := QPi) 2 (originalCu3Body (ang 0) (ang (1/2)) (ang 0))).map
+      (fun M => phaseEq8 M (Spec.specMatrix (.C (.U3 (ang 0) (ang (1/2)) (ang 0)) : GateTerm QPi))) = some false :=
+  remark_original_cu3
 
 end Q1t.Props.C11
